@@ -188,3 +188,11 @@ func RunNative(h func()) (failed []string, panicMsg string) {
 	h()
 	return
 }
+
+// RandBudget: number of math/rand draws the engine treats as arbitrary values on this path (the rest
+// are a fixed tail value). Natively a no-op.
+func RandBudget(n int) {}
+
+// MapOrders(true): from here on the engine explores the iteration orders of small maps (Go randomises
+// them); off by default. Natively a no-op.
+func MapOrders(on bool) {}
